@@ -1,0 +1,92 @@
+//go:build verif
+// +build verif
+
+package partition
+
+// Verification-only exports (build tag `verif`): pure additions that let the external harness run unexported
+// functions of this package on small fabricated inputs.
+
+import (
+	"context"
+
+	"github.com/jrivets/log4g"
+	"github.com/logrange/logrange/pkg/tmindex"
+	"github.com/logrange/range/pkg/records/chunk"
+	"github.com/logrange/range/pkg/records/journal"
+)
+
+// VerifChunk describes one fabricated chunk for VerifTruncate.
+type VerifChunk struct {
+	Id    uint64
+	Size  int64
+	MaxTs int64
+}
+
+type verifChunk struct {
+	chunk.Chunk
+	id   chunk.Id
+	size int64
+}
+
+func (c *verifChunk) Id() chunk.Id { return c.id }
+func (c *verifChunk) Size() int64  { return c.size }
+
+type verifCC struct {
+	journal.ChnksController
+	cks     chunk.Chunks
+	deleted []uint64
+}
+
+func (cc *verifCC) Chunks(ctx context.Context) (chunk.Chunks, error) { return cc.cks, nil }
+
+// DeleteChunks follows the library contract: every chunk with id <= lastCid goes (the list is sorted by id).
+func (cc *verifCC) DeleteChunks(ctx context.Context, lastCid chunk.Id, cdf journal.OnChunkDeleteF) (int, error) {
+	n := 0
+	rest := chunk.Chunks{}
+	for _, c := range cc.cks {
+		if c.Id() <= lastCid {
+			cc.deleted = append(cc.deleted, uint64(c.Id()))
+			n++
+		} else {
+			rest = append(rest, c)
+		}
+	}
+	cc.cks = rest
+	return n, nil
+}
+
+type verifJournal struct {
+	journal.Journal
+	size uint64
+	cc   *verifCC
+}
+
+func (j *verifJournal) Name() string                    { return "verif" }
+func (j *verifJournal) Size() uint64                    { return j.size }
+func (j *verifJournal) Chunks() journal.ChnksController { return j.cc }
+func (j *verifJournal) String() string                  { return "verifJournal" }
+
+type verifTsIndexer struct {
+	tmindex.TsIndexer
+	infos []tmindex.RecordsInfo
+}
+
+func (t *verifTsIndexer) SyncChunks(ctx context.Context, src string, cks chunk.Chunks) []tmindex.RecordsInfo {
+	return t.infos
+}
+
+// VerifTruncate runs Service.truncate on a fabricated journal: jsize is what Journal.Size() answers, cks the chunk
+// list (ids ascending), each with the size Chunk.Size() answers and the newest timestamp the time index claims.
+// It returns truncate's results and the ids the chunk controller was asked to delete.
+func VerifTruncate(tp TruncateParams, jsize uint64, cks []VerifChunk) (n int, removed uint64, deleted []uint64, err error) {
+	s := &Service{logger: log4g.GetLogger("partition.Service")}
+	cc := &verifCC{}
+	ti := &verifTsIndexer{}
+	for _, c := range cks {
+		cc.cks = append(cc.cks, &verifChunk{id: chunk.Id(c.Id), size: c.Size})
+		ti.infos = append(ti.infos, tmindex.RecordsInfo{Id: chunk.Id(c.Id), MaxTs: c.MaxTs})
+	}
+	s.TsIndexer = ti
+	n, removed, err = s.truncate(context.Background(), &verifJournal{size: jsize, cc: cc}, &tp)
+	return n, removed, cc.deleted, err
+}
